@@ -756,3 +756,182 @@ def _operands(rv):
         yield rv["a"]
     elif k == "agg":
         yield from rv["ops"]
+
+
+# ----------------------------------------------------------------------------- dominating facts
+
+NEG = {"Lt": "Ge", "Le": "Gt", "Gt": "Le", "Ge": "Lt", "Eq": "Ne", "Ne": "Eq"}
+SWAP = {"Lt": "Gt", "Le": "Ge", "Gt": "Lt", "Ge": "Le", "Eq": "Eq", "Ne": "Ne"}
+
+
+def _mutable_parts(t):
+    """components of a term whose value may change between two program points: multiply-assigned
+    locals and memory reached through deref/field of something that is not a plain parameter value"""
+    out = set()
+    for s in subterms(t):
+        if isinstance(s, tuple) and s and s[0] == 'var':
+            out.add(s)
+        if isinstance(s, tuple) and s and s[0] == 'deref':
+            out.add(s)
+    return out
+
+
+def _body_facts(self):
+    """all branch facts of the body: list of dict(u, v, rel) where rel is
+    ('cmp', op, a, b) | ('bool', term, truth) | ('discr', term, value)"""
+    if getattr(self, "_facts", None) is not None:
+        return self._facts
+    facts = []
+    for bb, ct, edges in self.branch_facts():
+        c = deep_strip(ct)
+        for (tgt, truth) in edges:
+            if truth is None:
+                continue
+            rel = None
+            if isinstance(truth, bool):
+                cc, tr = c, truth
+                while cc[0] == 'un' and cc[1] == 'Not':
+                    cc, tr = deep_strip(cc[2]), not tr
+                if cc[0] == 'bin' and cc[1] in NEG:
+                    op = cc[1] if tr else NEG[cc[1]]
+                    rel = ('cmp', op, deep_strip(cc[2]), deep_strip(cc[3]))
+                else:
+                    rel = ('bool', cc, tr)
+            else:
+                if c[0] == 'discr':
+                    rel = ('discr', deep_strip(c[1]), truth)
+                else:
+                    rel = ('cmp', 'Eq', c, ('const', truth))
+            facts.append({"u": bb, "v": tgt, "rel": rel})
+        # the otherwise edge of a non-bool switch: value differs from every listed one
+        if edges and edges[-1][1] is None:
+            for (tgt, val) in edges[:-1]:
+                if c[0] != 'discr':
+                    facts.append({"u": bb, "v": edges[-1][0], "rel": ('cmp', 'Ne', c, ('const', val))})
+    self._facts = facts
+    return facts
+
+
+def _writes_between(self, v, use_pos, parts, edge):
+    """is any mutable part (var local / memory) possibly redefined on a path from block v to use_pos
+    that does not cross `edge` again?"""
+    if not parts:
+        return False
+    ub, ui = use_pos
+    var_locals = {p[1] for p in parts if p[0] == 'var'}
+    has_mem = any(p[0] == 'deref' for p in parts)
+    # blocks reachable from v, not continuing past the use block, not re-crossing the edge
+    seen = set()
+    st = [v]
+    seen.add(v)
+    while st:
+        x = st.pop()
+        if x == ub:
+            continue
+        for y in self.succ(x):
+            if (x, y) == edge or y in seen:
+                continue
+            seen.add(y)
+            st.append(y)
+    # only blocks that can reach the use block matter
+    region = [x for x in seen if x == ub or ub in self.reachable(x, removed_edges=(edge,))]
+    for x in region:
+        blk = self.blocks[x]
+        stmts = blk["stmts"]
+        lim = ui if x == ub else len(stmts) + 1
+        for si, s in enumerate(stmts):
+            if si >= lim:
+                break
+            if s["k"] == "assign":
+                l = s["lhs"]
+                if "p" not in l and l["l"] in var_locals:
+                    return True
+                if "p" in l and has_mem and ('*' in l["p"]):
+                    return True
+                if "p" in l and l["l"] in var_locals:
+                    return True
+        if x != ub or lim > len(stmts):
+            t = blk["term"]
+            if t["k"] == "call":
+                d = t["dest"]
+                if "p" not in d and d["l"] in var_locals:
+                    return True
+                if has_mem:
+                    # a call receiving a &mut to the memory could write it: be conservative only for
+                    # calls that take a mutable reference argument
+                    for ty in t.get("arg_tys", []):
+                        tj = self.prog.types[ty]
+                        if tj["k"] == "ref" and tj.get("mut"):
+                            return True
+    return False
+
+
+def _facts_at(self, pos):
+    """relations that hold whenever control reaches `pos` (edge dominance + no intervening write)"""
+    out = []
+    for f in _body_facts(self):
+        u, v = f["u"], f["v"]
+        if not self.edge_dominates(u, v, pos[0]):
+            continue
+        rel = f["rel"]
+        parts = set()
+        for x in rel[1:]:
+            if isinstance(x, tuple):
+                parts |= _mutable_parts(x)
+        if _writes_between(self, v, pos, parts, (u, v)):
+            continue
+        out.append(rel)
+    return out
+
+
+Body.body_facts = _body_facts
+Body.facts_at = _facts_at
+
+
+def implies_ge(facts, a, b):
+    """do the facts imply a >= b (unsigned)?"""
+    a, b = deep_strip(a), deep_strip(b)
+    for r in facts:
+        if r[0] != 'cmp':
+            continue
+        _, op, x, y = r
+        if x == a and y == b and op in ('Ge', 'Gt', 'Eq'):
+            return True
+        if x == b and y == a and op in ('Le', 'Lt', 'Eq'):
+            return True
+    if b[0] == 'const' and isinstance(b[1], int):
+        if b[1] == 0:
+            return True
+        for r in facts:
+            if r[0] != 'cmp':
+                continue
+            _, op, x, y = r
+            if x == a and y[0] == 'const' and isinstance(y[1], int):
+                if op == 'Ne' and y[1] == 0 and b[1] == 1:
+                    return True
+                if op == 'Gt' and y[1] + 1 >= b[1]:
+                    return True
+                if op == 'Ge' and y[1] >= b[1]:
+                    return True
+            if y == a and x[0] == 'const' and isinstance(x[1], int):
+                if op == 'Ne' and x[1] == 0 and b[1] == 1:
+                    return True
+                if op == 'Lt' and x[1] + 1 >= b[1]:
+                    return True
+                if op == 'Le' and x[1] >= b[1]:
+                    return True
+    return False
+
+
+def implies_lt(facts, a, b):
+    """do the facts imply a < b ?"""
+    a, b = deep_strip(a), deep_strip(b)
+    for r in facts:
+        if r[0] != 'cmp':
+            continue
+        _, op, x, y = r
+        if x == a and y == b and op == 'Lt':
+            return True
+        if x == b and y == a and op == 'Gt':
+            return True
+    return False
